@@ -344,6 +344,8 @@ func c11SubworkflowCases() []*c11Case {
 		{name: "depth4", valid: true, main: "w.yaml", input: in, files: map[string][]byte{"w.yaml": []byte(root("a.yaml")), "a.yaml": []byte(loopTo("b.yaml", "")), "b.yaml": []byte(loopTo("c.yaml", "")), "c.yaml": []byte(loopTo("d.yaml", "")), "d.yaml": []byte(leaf)}},
 		{name: "diamond", valid: true, main: "w.yaml", input: in, files: map[string][]byte{"w.yaml": []byte(two("a.yaml", "b.yaml")), "a.yaml": []byte(loopTo("c.yaml", "")), "b.yaml": []byte(loopTo("c.yaml", "")), "c.yaml": []byte(leaf)}},
 		{name: "two-nested-siblings", valid: true, main: "w.yaml", input: in, files: map[string][]byte{"w.yaml": []byte(two("a.yaml", "b.yaml")), "a.yaml": []byte(loopTo("a2.yaml", "")), "b.yaml": []byte(loopTo("b2.yaml", "")), "a2.yaml": []byte(leaf), "b2.yaml": []byte(leaf)}},
+		{name: "shared-across-levels", valid: true, main: "w.yaml", input: in, files: map[string][]byte{"w.yaml": []byte(two("a.yaml", "c.yaml")), "a.yaml": []byte(loopTo("c.yaml", "")), "c.yaml": []byte(leaf)}},
+		{name: "shared-across-levels-2", valid: true, main: "w.yaml", input: in, files: map[string][]byte{"w.yaml": []byte(two("z.yaml", "c.yaml")), "z.yaml": []byte(loopTo("c.yaml", "")), "c.yaml": []byte(leaf)}},
 		{name: "same-twice", valid: true, main: "w.yaml", input: in, files: map[string][]byte{"w.yaml": []byte(two("a.yaml", "a.yaml")), "a.yaml": []byte(leaf)}},
 		{name: "missing-file", missing: "nothere.yaml", main: "w.yaml", files: map[string][]byte{"w.yaml": []byte(root("nothere.yaml"))}},
 		{name: "missing-nested", missing: "nothere.yaml", main: "w.yaml", files: map[string][]byte{"w.yaml": []byte(root("a.yaml")), "a.yaml": []byte(loopTo("nothere.yaml", ""))}},
